@@ -131,6 +131,19 @@ def _viol(kind, entry, cls, detail):
     return {"kind": kind, "entry": entry, "sig": "%s:%s:%s:%s" % (entry, kind, cls, _SCALE[0]), "detail": detail}
 
 
+def _norm_kind(vec, exact_pts, ref_norm, tol, cache):
+    """'norm_feasible_suboptimal' when the returned point lies in the hull of the input points but is farther from the origin
+    than the optimum (what an over-eager degeneracy test produces: the solver fell back to a sub-feature); plain 'norm' otherwise
+    (point outside the hull, or closer than the optimum)."""
+    key = tuple(float(c) for c in vec)
+    if key not in cache:
+        d2 = ref.dist_sq_to_hull(exact_pts, tuple(F(c) for c in key))
+        cache[key] = float(d2) ** 0.5
+    if cache[key] <= tol and float(np.linalg.norm(vec)) > ref_norm + tol:
+        return "norm_feasible_suboptimal"
+    return "norm"
+
+
 def _classify(k, sub):
     return "k%d->%d" % (k, len(sub))
 
@@ -161,6 +174,7 @@ def run_state(desc):
     perms = sorted(set(itertools.permutations(range(k))), key=lambda p: p)
     seen_orders = set()
     hull_cache = {}
+    feas_cache = {}
     dependent = len(S) < k and any(ref.project_affine([exact_pts[i] for i in c]) is None
                                    for c in [tuple(range(k))])
     for perm in perms:
@@ -189,7 +203,7 @@ def run_state(desc):
                     viol.append(_viol("input_mutated", "jolt", "k%d" % k, {"order": order}))
                 err = abs(float(np.linalg.norm(v)) - ref_norm)
                 if not err <= tol:
-                    viol.append(_viol("norm", "jolt", "k%d" % k,
+                    viol.append(_viol(_norm_kind(v, exact_pts, ref_norm, tol, feas_cache), "jolt", "k%d" % k,
                                       {"order": order, "v": v, "ref_norm": ref_norm, "err": err, "set": sset}))
                 if abs(float(vlsq) - float(np.dot(v, v))) > 1e-12 * max(scale * scale, float(np.dot(v, v))):
                     viol.append(_viol("len_sq", "jolt", "k%d" % k, {"order": order, "vlsq": float(vlsq)}))
@@ -228,7 +242,7 @@ def run_state(desc):
             continue
         err = abs(float(np.linalg.norm(sd)) - ref_norm)
         if not err <= tol:
-            viol.append(_viol("norm", "orig_backup", "k%d" % k,
+            viol.append(_viol(_norm_kind(sd, exact_pts, ref_norm, tol, feas_cache), "orig_backup", "k%d" % k,
                               {"order": order, "v": sd, "ref_norm": ref_norm, "err": err, "m": m}))
         if abs(sol.distance_squared - float(np.dot(sd, sd))) > 1e-9 * scale * scale:
             viol.append(_viol("len_sq", "orig_backup", "k%d" % k, {"order": order}))
